@@ -557,7 +557,7 @@ func checkC10(c *core.Ctx) error {
 	c.Rule("C10.R1", "header identities: T() transposes the index map and the dimensions; SLICE shifts it by (r0,c0) and sets the dimensions (r1-r0, c1-c0); for both values of transposed", 72)
 	c.Rule("C10.R2", "row/column/diagonal accessors address element k at idx_h(i,k) / idx_h(k,j) / idx_h(k,k); contiguous sub-slices start at index() and are used only in the branch of transposed where they are contiguous; copying accessors allocate", 100)
 	c.Rule("C10.R3", "index() tests 0<=i<rows and 0<=j<cols and the test dominates the offset computation", 18)
-	c.Rule("C10.R4", "storage geometry (values, offsets, maxima, transposed) is used only in the indexing layer or as values[index(i,j)]; any other use cannot be correct for a sliced or transposed receiver", 200)
+	c.Rule("C10.R4", "storage geometry (values, offsets, maxima, transposed) is used only in the indexing layer or as values[index(i,j)]; any other use cannot be correct for a sliced or transposed receiver", 190)
 	c.Rule("C10.R5", "encoders (MarshalJSON/Export) emit raw storage only under a test that implies the receiver owns its whole storage (not transposed, rows = rowMax, cols = colMax)", 18)
 	pkg := c.Root
 	dense, sparse := matrixTypes(pkg)
